@@ -98,6 +98,31 @@ Theorem complete_is_spec : forall fl h0 acts,
 Proof. exact complete_spec. Qed.
 Print Assumptions complete_is_spec.
 
+(* what the handler's own Flush calls have passed to the client after it executed [pre]
+   is the independent description [spec_committed]: nothing, unless it flushed through a
+   Flusher-capable writer; then status and headers of its first Flush and the chunks written
+   before its last Flush — never an unflushed byte *)
+Theorem committed_is_spec : forall fl h0 pre,
+  spec_panic fl false pre = None -> info_first fl pre = false ->
+  rw_view (committed fl h0 pre) = spec_committed fl h0 pre.
+Proof. exact committed_view_spec. Qed.
+Print Assumptions committed_is_spec.
+
+(* timeout_result.  Whenever ServeHTTP returned through the timeout branch, for every
+   script (Flush included) and schedule, the client's view is [timeout_view] of a prefix of
+   the script: what the handler had flushed itself by then, followed by the 503 / 499
+   reply with the writer's own headers (if nothing was flushed) and the fixed body —
+   this is the "timeout result" test of the checker (Check.is_timeout) *)
+Theorem timeout_result : forall fl h0 script sched k,
+  let s := run (init fl h0 script) sched in
+  sst s = STimeoutRet k ->
+  exists pre, (exists post, script = pre ++ post) /\
+              rw s = timeout_write k (committed fl h0 pre) /\
+              (spec_panic fl false pre = None -> info_first fl pre = false ->
+               rw_view (rw s) = timeout_view fl h0 k pre).
+Proof. exact timeout_result_lemma. Qed.
+Print Assumptions timeout_result.
+
 (* the panic a script ends in does not depend on flushing or timing *)
 Theorem script_panic_is_spec : forall fl h0 acts,
   snd (href (start fl h0) acts) = spec_panic fl false acts.
